@@ -22,13 +22,14 @@ structure Wiring where
   boot     : Int      -- head read by `app.Run` when `GetStartBlock` yields nil (EVM / Substrate)
 deriving Repr
 
-/-- sygma-core `BlockStore.GetStartBlock`; `stored = none` is an absent key (read as 0) -/
+/-- sygma-core `BlockStore.GetLastStoredBlock`; `stored = none` is an absent key (read as 0) -/
+def lastStored (stored : Option Int) : Int := match stored with | some v => v | none => 0
+
+/-- sygma-core `BlockStore.GetStartBlock` -/
 def getStartBlock (w : Wiring) (stored : Option Int) : Option Int :=
   if w.latest then none
   else if w.fresh then some w.cfgStart
-  else
-    let last := match stored with | some v => v | none => 0
-    if last > w.cfgStart then some last else some w.cfgStart
+  else if lastStored stored > w.cfgStart then some (lastStored stored) else some w.cfgStart
 
 /-- `chains.CalculateStartingBlock`: `s − s mod k` (`big.Int.Mod` is the Euclidean modulus, like `Int.emod`);
     `k = 0` is a division-by-zero panic and is modelled by the driver as such -/
@@ -88,12 +89,15 @@ def imax (a b : Int) : Int := if a < b then b else a
 /-- all handlers were invoked in this round and none of them failed -/
 def fully (cfg : Cfg) (r : Round) (o : Obs) : Bool := completes cfg r && o.calls.length == cfg.nh
 
+/-- the frontier, anchored at `s` if it is not anchored yet -/
+def anchor (hi : Option Int) (s : Int) : Int := match hi with | some H => H | none => s
+
 def chkRound (cfg : Cfg) (hi : Option Int) (r : Round) (o : Obs) : Option (Option Int) :=
-  match o.calls with
-  | [] => if o.store.isSome then none else some hi
-  | c :: _ =>
+  match o.calls.head? with
+  | none => if o.store.isSome then none else some hi
+  | some c =>
     if o.calls ≠ callsUpTo cfg c.s o.calls.length then none else
-    let H := match hi with | some H => H | none => c.s
+    let H := anchor hi c.s
     if H < c.s then none else
     let H' := if fully cfg r o then imax H (c.e + 1) else H
     match o.store with
